@@ -38,7 +38,8 @@ pub fn def() -> CheckDef {
                modes. RANDOM part: grammar-derived formulae printed with randomly dropped / redundant parentheses, spellings and blanks; \
                token-level mutations; identifier shapes (EXa, AU_1, A, E_, 3x, V1, leading digits, unicode letters/digits); whitespace placements \
                inside hybrid operators; raw strings over the formula alphabet. For every string: library tokenizer vs reference lexer, library \
-               parser vs reference precedence-climbing parser (accept/reject and tree), plain vs extended parser. Non-trivial: the reference \
+               parser vs reference precedence-climbing parser (accept/reject and tree), plain vs extended parser; for random strings the extended reference accepts, the two parse-and-preprocess entry points with a \
+               context made of the string's propositions vs reference parser of that mode + reference binder. Non-trivial: the reference \
                accepts the string or rejects it only at parser (not lexer) level; distinct by string (enumerated sequences are distinct by \
                construction and counted, random strings are hashed).",
         assumptions: &[
@@ -61,6 +62,8 @@ pub fn def() -> CheckDef {
                 ("accepted_with_domain", 100 * m),
                 ("accepted_with_wild_card", 100 * m),
                 ("random_strings", 20_000 * m),
+                ("parse_and_preprocess_accepted", 500 * m),
+                ("plain_parse_and_preprocess_rejects_extended_syntax", 100 * m),
             ]
         },
         run,
@@ -158,6 +161,77 @@ fn check_string(s: &str, out: &mut CaseOut) -> bool {
                 format!("on {s:?}: plain {p}, extended {e}"),
                 J::obj(vec![("input", J::s(s))]),
             );
+            return false;
+        }
+    }
+    true
+}
+
+/// The two "parse + preprocess" entry points (`parse_and_minimize_hctl_formula` / `..._extended_formula`) on a string the
+/// reference accepts in extended mode, with a symbolic context whose network variables are exactly the propositions of the string:
+/// Ok / Err and the tree must be what the reference parser of THAT mode followed by the reference binder gives (in particular the
+/// plain one rejects wild-cards and domains).
+fn check_minimize_wrappers(s: &str, out: &mut CaseOut) -> bool {
+    use biodivine_hctl_model_checker::preprocessing::parser::{parse_and_minimize_extended_formula, parse_and_minimize_hctl_formula};
+    use biodivine_lib_param_bn::symbolic_async_graph::SymbolicContext;
+    use biodivine_lib_param_bn::{BooleanNetwork, RegulatoryGraph};
+    let ext_tree = match syn::parse(s, true) {
+        Ok(t) => t,
+        Err(_) => return true,
+    };
+    let plain_tree = syn::parse(s, false).ok();
+    let mut names: Vec<String> = Vec::new();
+    {
+        let mut subs = Vec::new();
+        ext_tree.subformulas(&mut subs);
+        for f in subs {
+            if let F::Prop(p) = f {
+                if !names.contains(p) {
+                    names.push(p.clone());
+                }
+            }
+        }
+    }
+    if names.iter().any(|n| n.is_empty() || !n.chars().all(|c| c.is_ascii_alphanumeric() || c == '_')) || names.len() > 8 {
+        return true;
+    }
+    if names.is_empty() {
+        names.push("zz_only_variable".to_string());
+    }
+    let ctx = match libg::guarded(|| SymbolicContext::new(&BooleanNetwork::new(RegulatoryGraph::new(names.clone())))) {
+        Ok(Ok(c)) => c,
+        _ => return true,
+    };
+    let is_prop = |p: &str| names.iter().any(|n| n == p);
+    for (extended, tree) in [(false, plain_tree), (true, Some(ext_tree))] {
+        let name = if extended { "parse_and_minimize_extended_formula" } else { "parse_and_minimize_hctl_formula" };
+        let expected: Option<F> = tree.as_ref().and_then(|t| syn::bind(t, &is_prop).ok());
+        let lib = libg::guarded(|| if extended { parse_and_minimize_extended_formula(&ctx, s) } else { parse_and_minimize_hctl_formula(&ctx, s) });
+        out.count("parse_and_preprocess_calls");
+        let problem: Option<(String, String)> = match (&lib, &expected) {
+            (Err(p), _) => Some((libg::panic_signature(p), format!("{name} panicked on {s:?}: {p}"))),
+            (Ok(Ok(t)), Some(e)) => {
+                out.count("parse_and_preprocess_accepted");
+                if &syn::from_lib(t) != e {
+                    Some(("parse + preprocess: different tree".to_string(), format!("{name} on {s:?}: library {}, reference {}", t, e.canon())))
+                } else {
+                    None
+                }
+            }
+            (Ok(Err(_)), None) => {
+                if extended == false && tree.is_none() {
+                    out.count("plain_parse_and_preprocess_rejects_extended_syntax");
+                }
+                None
+            }
+            (Ok(Ok(t)), None) => Some((
+                "parse + preprocess accepts what the grammar / binding rules reject".to_string(),
+                format!("{name} on {s:?} (network variables {names:?}): library accepts it as {t}, the reference {} it", if tree.is_none() { "parser of this mode rejects" } else { "binder rejects" }),
+            )),
+            (Ok(Err(e)), Some(r)) => Some(("parse + preprocess rejects a valid formula".to_string(), format!("{name} on {s:?} (network variables {names:?}): library Err({e}), reference {}", r.canon()))),
+        };
+        if let Some((sig, what)) = problem {
+            out.violate(&sig, what.clone(), J::obj(vec![("input", J::s(s)), ("entry_point", J::s(name)), ("network_variables", J::arr_str(&names)), ("what", J::s(&what))]));
             return false;
         }
     }
@@ -364,7 +438,7 @@ fn run(rng: &mut Rng, idx: u64, tier: Tier) -> CaseOut {
     out.count("random_strings");
     out.count(&format!("kind_{kind}"));
     out.nontrivial = nontrivial_string(&s);
-    if check_string(&s, &mut out) && out.nontrivial {
+    if check_string(&s, &mut out) && check_minimize_wrappers(&s, &mut out) && out.nontrivial {
         out.sample = Some(J::obj(vec![
             ("input", J::s(&s)),
             ("kind", J::s(kind)),
